@@ -104,3 +104,9 @@ Example C01_read_back_examples :
   /\ read_fenced (split_on nlc (fst (render_code [112; 121]%N [] 96%N 3 [96; 96; 96; 10; 120; 10]%N (RS [] [] false false [] false))))
      = Some (Fenced 96%N 4 [112; 121]%N [[96; 96; 96]%N; [120]%N], [[]]).
 Proof. repeat split; vm_compute; reflexivity. Qed.
+
+(* the language word of a code fence (and every destination and title) is handed over by the parser
+   with backslash escapes removed; what the renderer writes gives it back exactly *)
+Theorem C01_escapes_undone : forall s, strip_backslash (escape_backslashes s) = s.
+Proof. exact strip_escape_backslashes. Qed.
+Print Assumptions C01_escapes_undone.
